@@ -560,9 +560,8 @@ func hasRealUse(v ssa.Value) bool {
 type filterRule struct {
 	BaseRule
 	reqN   *types.Named
-	field  string   // the filter under test
-	others []string // other string filters: unset
-	match  bool     // record attribute equals the filter
+	set   map[string]bool // the filters that are set in the request; every other string filter is empty
+	match map[string]bool // per set filter: the record's attribute equals it
 }
 
 func (f *filterRule) Compare(x *Explorer, fr *Frame, op token.Token, l, r ssa.Value) AV {
@@ -613,11 +612,13 @@ func (f *filterRule) decide(op token.Token, lt, rt *Term) AV {
 	res := Unknown
 	switch {
 	case isReq(lt) && isEmpty(rt):
-		res = Bool(lt.Name != f.field) // the tested filter is set (not empty); all others are empty
+		res = Bool(!f.set[lt.Name]) // a set filter is not empty; all others are empty
 	case isReq(rt) && isEmpty(lt):
-		res = Bool(rt.Name != f.field)
-	case reqIn(lt) == f.field && reqIn(rt) == "", reqIn(rt) == f.field && reqIn(lt) == "":
-		res = Bool(f.match) // the record's attribute against (a value parsed from) the filter
+		res = Bool(!f.set[rt.Name])
+	case f.set[reqIn(lt)] && reqIn(rt) == "":
+		res = Bool(f.match[reqIn(lt)]) // the record's attribute against (a value parsed from) the filter
+	case f.set[reqIn(rt)] && reqIn(lt) == "":
+		res = Bool(f.match[reqIn(rt)])
 	default:
 		return Unknown
 	}
@@ -659,9 +660,28 @@ func checkQueryFilters(w *World, r *Report, tm *Terms, name string, fn *ssa.Func
 			strFilters = append(strFilters, f.Name())
 		}
 	}
-	for _, fld := range strFilters {
-		for _, match := range []bool{true, false} {
-			fr := &filterRule{reqN: reqN, field: fld, match: match}
+	if len(strFilters) > 4 {
+		strFilters = strFilters[:4]
+	}
+	// every combination of set filters, and for each every combination of "the record's attribute equals it"
+	for mask := 1; mask < 1<<len(strFilters); mask++ {
+		var setL []string
+		for i, f := range strFilters {
+			if mask&(1<<i) != 0 {
+				setL = append(setL, f)
+			}
+		}
+		for mm := 0; mm < 1<<len(setL); mm++ {
+			set, match := map[string]bool{}, map[string]bool{}
+			all := true
+			var ml []string
+			for i, f := range setL {
+				set[f] = true
+				match[f] = mm&(1<<i) != 0
+				all = all && match[f]
+				ml = append(ml, fmt.Sprint(match[f]))
+			}
+			fr := &filterRule{reqN: reqN, set: set, match: match}
 			x := NewExplorer(w, tm, fr)
 			got := map[string]bool{}
 			// the predicate in the context in which it was made: a closure's captured variables and a bound method's
@@ -672,18 +692,15 @@ func checkQueryFilters(w *World, r *Report, tm *Terms, name string, fn *ssa.Func
 					got[o.Rets[0].String()] = true
 				}
 			}
-			want := "false"
-			if match {
-				want = "true"
-			}
+			want := fmt.Sprint(all)
 			ok := len(got) == 1 && got[want]
 			var gl []string
 			for k := range got {
 				gl = append(gl, k)
 			}
 			sort.Strings(gl)
-			r.Check(ok, "QRY-FILTER", fmt.Sprintf("%s:%s:match=%v", name, fld, match), w.pos(pred.Pos()),
-				fmt.Sprintf("query %s with only filter %s set admits a record iff its attribute equals the filter (attribute equal: %v → predicate %s)", name, fld, match, want),
+			r.Check(ok, "QRY-FILTER", fmt.Sprintf("%s:%s:match=%s", name, strings.Join(setL, "+"), strings.Join(ml, ",")), w.pos(pred.Pos()),
+				fmt.Sprintf("query %s with filter(s) %s set admits a record iff every set filter equals the record's attribute (attributes equal: %s → predicate %s)", name, strings.Join(setL, "+"), strings.Join(ml, ","), want),
 				fmt.Sprintf("the predicate can return %v", gl))
 		}
 	}
